@@ -3,26 +3,16 @@
 From Coq Require Import NArith List Bool Lia Arith.
 From Coq Require Import ZifyN ZifyNat ZifyBool.
 From ZV Require Import Recover.Consts Recover.Path Recover.ProofsWal Recover.ProofsLists Recover.ProofsWal2 Recover.ProofsInv
-  Recover.ProofsStepA Recover.ProofsStepB Recover.ProofsStepC.
+  Recover.ProofsStepA Recover.ProofsStepB Recover.ProofsStepC Recover.ProofsStepD.
 Import ListNotations.
 Open Scope N_scope.
 
-(* the events of a replica that never receives a snapshot from its leader (MsgSnap): no Ready carries one, and the
-   sub-steps of a snapshot's installation do not occur *)
-Definition is_local (e : event) : bool :=
-  match e with
-  | EvRdBegin r => r_snap r =? 0
-  | EvFsMark _ | EvFsCopy _ | EvFsComplete _ | EvFsLocalOk _ | EvAsPrepared _ | EvAsRaftDone _ | EvAsRestored _
-  | EvRdSaveSnapBefore _ | EvRdSnapFile _ | EvRdSaveSnapAfter _ | EvRdApplySnapBefore _ | EvRdApplySnapAfter _
-  | EvRdReleaseAfter _ => false
-  | _ => true
-  end.
-Definition local_only (evs : list event) : Prop := forallb is_local evs = true.
-
-Lemma inv_step : forall c s ev s', fixed c -> is_local ev = true -> Inv c s -> (ev = EvPgBefore 4 -> window_ok c s) -> step c s ev = Ok s' -> Inv c s'.
+Lemma inv_step : forall c s ev s', fixed c -> Inv c s ->
+  (ev = EvPgBefore 4 -> window_ok c s) -> (ev = EvCkPurgeBefore -> in_window s = 0%nat) ->
+  step c s ev = Ok s' -> Inv c s'.
 Proof.
-  intros c s ev s' Hfx Hloc HI SW H. destruct ev; try discriminate Hloc.
-  - eapply step_rd_begin; eauto. simpl in Hloc. apply N.eqb_eq in Hloc. exact Hloc.
+  intros c s ev s' Hfx HI SW SC H. destruct ev.
+  - eapply step_rd_begin; eauto.
   - eapply step_rd_save_before; eauto.
   - eapply step_rd_save_after; eauto.
   - eapply step_cut_before; eauto.
@@ -62,20 +52,42 @@ Proof.
   - eapply step_rc_restored; eauto.
   - eapply step_rs_marker_gone; eauto.
   - eapply step_rc_replay; eauto.
+  - eapply step_fs_mark; eauto.
+  - eapply step_fs_copy; eauto.
+  - eapply step_fs_complete; eauto.
+  - eapply step_fs_local_ok; eauto.
+  - eapply step_as_prepared; eauto.
+  - eapply step_as_raftdone; eauto.
+  - eapply step_as_restored; eauto.
+  - eapply step_rd_savesnap_before; eauto.
+  - eapply step_rd_snapfile; eauto.
+  - eapply step_rd_savesnap_after; eauto.
+  - eapply step_rd_applysnap_before; eauto.
+  - eapply step_rd_applysnap_after; eauto.
+  - eapply step_rd_release_after; eauto.
 Qed.
 
-(* the schedule hypothesis along a run: whenever the snap directory purge decides to remove a file, fewer snapshot
-   goroutines than snap files it keeps (>= 2) are between "snap file written" and "WAL marker written" *)
+(* the schedule hypotheses along a run. (1) Whenever the snap directory purge decides to remove a file, fewer
+   snapshots than snap files it keeps (>= 2) are between "snap file written" and "WAL marker valid" (the goroutines of
+   local snapshots, and the raft loop persisting an incoming one). (2) The checkpoint purge of the backup loop does
+   not start while the raft loop is between the snap file of an incoming snapshot and the hard state that makes its
+   WAL record valid (it would take that snapshot's index as the bound below which it removes) *)
 Fixpoint sched_ok (c : config) (s : state) (evs : list event) : Prop :=
   match evs with
   | [] => True
-  | e :: t => (e = EvPgBefore 4 -> window_ok c s) /\ match step c s e with Ok s' => sched_ok c s' t | Err _ => True end
+  | e :: t => (e = EvPgBefore 4 -> window_ok c s) /\ (e = EvCkPurgeBefore -> in_window s = 0%nat)
+              /\ match step c s e with Ok s' => sched_ok c s' t | Err _ => True end
   end.
 
 (* the acceptor evaluates [sched_holds] before every event of every real run and rejects the log when it is false:
    the hypothesis of the theorems is checked, not assumed, on the runs the correspondence is established on *)
-Lemma sched_holds_ok : forall c s e, sched_holds c s e = true -> (e = EvPgBefore 4 -> window_ok c s).
-Proof. intros c s e H ->. unfold sched_holds in H. unfold window_ok, win_count. apply Nat.ltb_lt in H. lia. Qed.
+Lemma sched_holds_ok : forall c s e, sched_holds c s e = true ->
+  (e = EvPgBefore 4 -> window_ok c s) /\ (e = EvCkPurgeBefore -> in_window s = 0%nat).
+Proof.
+  intros c s e H. split; intros ->; unfold sched_holds in H.
+  - unfold window_ok, win_count. apply Nat.ltb_lt in H. lia.
+  - apply Nat.eqb_eq in H. exact H.
+Qed.
 
 Fixpoint sched_holds_run (c : config) (s : state) (evs : list event) : bool :=
   match evs with
@@ -86,58 +98,103 @@ Fixpoint sched_holds_run (c : config) (s : state) (evs : list event) : bool :=
 Lemma sched_holds_run_ok : forall c evs s, sched_holds_run c s evs = true -> sched_ok c s evs.
 Proof.
   induction evs as [|e t IH]; intros s H; simpl in *; auto.
-  apply andb_true_iff in H. destruct H as [H1 H2]. split.
-  - apply sched_holds_ok. exact H1.
-  - destruct (step c s e); auto.
+  apply andb_true_iff in H. destruct H as [H1 H2]. destruct (sched_holds_ok _ _ _ H1) as [A B].
+  split; [exact A|]. split; [exact B|]. destruct (step c s e); auto.
 Qed.
 
-Lemma inv_run : forall c evs s s', fixed c -> local_only evs -> Inv c s -> sched_ok c s evs -> run c s evs = Ok s' -> Inv c s'.
+Lemma inv_run : forall c evs s s', fixed c -> Inv c s -> sched_ok c s evs -> run c s evs = Ok s' -> Inv c s'.
 Proof.
-  intros c evs s s' Hfx. revert s s'. induction evs as [|e t IH]; intros s s' HL HI HS H; simpl in H.
+  intros c evs s s' Hfx. revert s s'. induction evs as [|e t IH]; intros s s' HI HS H; simpl in H.
   - injection H as <-. exact HI.
-  - simpl in HS. destruct HS as [SW HS]. destruct (step c s e) as [s1|] eqn:E; [|discriminate].
-    unfold local_only in HL. simpl in HL. apply andb_true_iff in HL. destruct HL as [HL1 HL2].
-    eapply IH; [exact HL2 | eapply inv_step; eauto | exact HS | exact H].
+  - simpl in HS. destruct HS as [SW [SC HS]]. destruct (step c s e) as [s1|] eqn:E; [|discriminate].
+    eapply IH; [eapply inv_step; eauto | exact HS | exact H].
 Qed.
 
-Lemma inv_reachable : forall c evs s, fixed c -> local_only evs -> sched_ok c init_state evs -> run c init_state evs = Ok s -> Inv c s.
+Lemma inv_reachable : forall c evs s, fixed c -> sched_ok c init_state evs -> run c init_state evs = Ok s -> Inv c s.
 Proof. intros. eapply inv_run; eauto. apply inv_init. Qed.
 
-(* what a restart serves from the crash image of a state that satisfies the invariant *)
-Lemma inv_recover : forall c s j extra ss,
-  Inv c s -> image s j extra = Some ss ->
-  exists k, recover ss (snapfiles s) (ckpts s) = Ok (range 0 k) /\ acked s <= k <= proposed s.
+(* the state right after a process death *)
+Lemma crash_state_inv : forall c s j extra ss, Inv c s -> image s j extra = Some ss ->
+  exists hi, PInv (reset_volatile (set_segs s ss)) hi /\ RInv (reset_volatile (set_segs s ss)).
 Proof.
   intros c s j extra ss HI Him.
   assert (Hst : step c s (EvCrash j extra) = Ok (reset_volatile (set_segs s ss))).
   { unfold step. rewrite Him. reflexivity. }
-  pose proof (step_crash c s _ j extra HI Hst) as [hi [HP _]].
-  exists hi. split.
-  - pose proof (p_commit _ _ HP 0%nat ltac:(simpl; lia)) as Hc. rewrite drop_tail_0 in Hc.
-    apply (recover_chain2 ss (lo_of ss) hi (snapfiles s) (ckpts s) (newest ss)).
-    + exact (p_local _ _ HP).
-    + exact (p_chain _ _ HP).
-    + reflexivity.
-    + exact (p_new_in _ _ HP).
-    + intros i Hi. apply newest_ge. exact Hi.
-    + exact Hc.
-    + exact (p_first _ _ HP).
-    + exact (p_nozero _ _ HP).
-    + exact (p_file _ _ HP).
-  - split; [exact (p_acked _ _ HP) | exact (p_prop _ _ HP)].
+  destruct (step_crash c s _ j extra HI Hst) as [hi [HP HV]]. exists hi. split; [exact HP|exact HV].
+Qed.
+
+Lemma crash_world : forall c s j extra ss, Inv c s -> image s j extra = Some ss ->
+  exists hi, hi = last_entry (all_recs ss) /\ acked s <= hi <= proposed s /\
+    (forall h m0, In (h, m0) (jumps (all_recs ss)) -> m0 <= newest ss /\ h < m0) /\
+    seg_chain (lo_of ss) ss hi /\ In (newest ss) (pmarkers (all_recs ss)) /\
+    (forall f, In f (snapfiles s) -> In f (valid_markers ss) -> f <= newest ss) /\
+    newest ss <= last_commit (all_recs ss) /\ sfirst (hd (mkSeg 0 []) ss) <= newest ss /\ ~ In 0 (snapfiles s) /\
+    (0 < newest ss -> In (newest ss) (snapfiles s) /\ lookup (newest ss) (ckpts s) = Some (range 0 (newest ss))).
+Proof.
+  intros c s j extra ss HI Him. destruct (crash_state_inv c s j extra ss HI Him) as [hi [HP HV]].
+  exists hi. pose proof (pinv_last_entry _ _ HP) as Hle. simpl in Hle.
+  pose proof (p_commit _ _ HP 0%nat ltac:(simpl; lia)) as Hc. rewrite drop_tail_0 in Hc.
+  split; [symmetry; exact Hle|]. split; [split; [exact (p_acked _ _ HP) | exact (p_prop _ _ HP)]|].
+  split; [exact (pinv_jumps _ _ HP)|]. split; [exact (p_chain _ _ HP)|]. split; [exact (p_new_in _ _ HP)|].
+  split.
+  { intros f Hf Hv. apply (valid_file_le_newest (reset_volatile (set_segs s ss)) f); auto.
+    intros u Hu. unfold RInv in HV. destruct HV as [_ [_ [_ [_ [_ [_ [_ [_ [_ [_ [Hun _]]]]]]]]]]].
+    destruct (Hun u Hu) as [A|[A|[_ A]]]; auto. }
+  split; [exact Hc|]. split; [exact (p_first _ _ HP)|]. split; [exact (p_nozero _ _ HP) | exact (p_file _ _ HP)].
+Qed.
+
+(* what a restart serves from the crash image of a state that satisfies the invariant: every entry the WAL image
+   holds (a single-replica group commits its whole log by itself) *)
+Lemma inv_recover : forall c s j extra ss,
+  Inv c s -> image s j extra = Some ss ->
+  recover ss (snapfiles s) (ckpts s) = Ok (range 0 (last_entry (all_recs ss))) /\ acked s <= last_entry (all_recs ss) <= proposed s.
+Proof.
+  intros c s j extra ss HI Him.
+  destruct (crash_world c s j extra ss HI Him) as [hi [Hhi [Hb [HJ [HC [Hin [Hmax [Hc [Hf [Hz Hfile]]]]]]]]]].
+  rewrite <- Hhi. split; [|exact Hb].
+  apply (recover_chain2 ss (lo_of ss) hi (snapfiles s) (ckpts s) (newest ss)); auto.
+Qed.
+
+(* what a replica of a group restarted WITHOUT its peers serves: the entries up to the commit index found in the WAL
+   image, at least the state of the newest valid snapshot: a prefix-state *)
+Lemma inv_recover_isolated : forall c s j extra ss,
+  Inv c s -> image s j extra = Some ss ->
+  exists k, recover_isolated ss (snapfiles s) (ckpts s) = Ok (range 0 k) /\ newest ss <= k <= last_entry (all_recs ss)
+            /\ last_entry (all_recs ss) <= proposed s.
+Proof.
+  intros c s j extra ss HI Him.
+  destruct (crash_world c s j extra ss HI Him) as [hi [Hhi [Hb [HJ [HC [Hin [Hmax [Hc [Hf [Hz Hfile]]]]]]]]]].
+  rewrite <- Hhi.
+  destruct (recover_isolated_chain ss (lo_of ss) hi (snapfiles s) (ckpts s) (newest ss)) as [k [Hk Hkk]]; auto.
+  exists k. split; [exact Hk|]. split; [exact Hkk | lia].
 Qed.
 
 (* C06 on the path model: along every run (any interleaving of the raft loop, the apply loop, the snapshot
-   goroutines, the backup loop and the purge loops; any number of earlier crash/restart cycles, also crashes
-   during a restart), whatever the instant of the process death and whatever part of the buffered WAL records
-   reached the file: the restart procedure succeeds on the crash image and the state it serves is the result of
-   applying entries 1..k in order, for a k between the last acknowledged and the last proposed index *)
-Theorem recover_correct : forall c evs s, fixed c -> local_only evs ->
+   goroutines, the backup loop, the purge loops and the installation of snapshots received from a leader; any number
+   of earlier crash/restart cycles, also crashes during a restart), whatever the instant of the process death and
+   whatever part of the buffered WAL records reached the file: the restart procedure succeeds on the crash image and
+   the state it serves is the result of applying entries 1..k in order, for a k between the last acknowledged and the
+   last proposed index *)
+Theorem recover_correct : forall c evs s, fixed c ->
   run c init_state evs = Ok s -> sched_ok c init_state evs ->
   forall j extra ss, image s j extra = Some ss ->
   exists k, recover ss (snapfiles s) (ckpts s) = Ok (range 0 k) /\ acked s <= k <= proposed s.
 Proof.
-  intros c evs s Hfx Hlo Hrun Hs j extra ss Him. eapply inv_recover; eauto. eapply inv_reachable; eauto.
+  intros c evs s Hfx Hrun Hs j extra ss Him.
+  destruct (inv_recover c s j extra ss (inv_reachable c evs s Hfx Hs Hrun) Him) as [A B]. eauto.
+Qed.
+
+(* a follower killed anywhere (also anywhere inside the installation of a snapshot its leader sent) and restarted
+   before it hears of its peers serves a prefix-state: entries 1..k in order, k not below its newest valid snapshot
+   and not above what was proposed; never a mixture of the old engine and a half-copied checkpoint *)
+Theorem follower_restart_prefix_state : forall c evs s, fixed c ->
+  run c init_state evs = Ok s -> sched_ok c init_state evs ->
+  forall j extra ss, image s j extra = Some ss ->
+  exists k, recover_isolated ss (snapfiles s) (ckpts s) = Ok (range 0 k) /\ newest ss <= k <= proposed s.
+Proof.
+  intros c evs s Hfx Hrun Hs j extra ss Him.
+  destruct (inv_recover_isolated c s j extra ss (inv_reachable c evs s Hfx Hs Hrun) Him) as [k [A [B C]]].
+  exists k. split; [exact A | lia].
 Qed.
 
 (* the ordering invariants by name (for every reachable state) *)
@@ -147,61 +204,61 @@ Definition I1_I2_newest_marker_has_file_and_checkpoint (s : state) : Prop :=
 Definition I3_wal_not_purged_past_newest_snapshot (s : state) : Prop :=
   sfirst (hd (mkSeg 0 []) (segs s)) <= newest (segs s) /\ In (newest (segs s)) (markers (all_recs (segs s))).
 Definition I4_acknowledged_entries_are_in_every_crash_image (s : state) : Prop :=
-  forall j, (j <= unflushed s)%nat -> acked s <= last_entry (all_recs (drop_tail (segs s) j)).
+  forall j extra ss, image s j extra = Some ss -> acked s <= last_entry (all_recs ss).
 
-Theorem ordering_invariants : forall c evs s, fixed c -> local_only evs ->
+Theorem ordering_invariants : forall c evs s, fixed c ->
   run c init_state evs = Ok s -> sched_ok c init_state evs ->
   I1_I2_newest_marker_has_file_and_checkpoint s /\ I3_wal_not_purged_past_newest_snapshot s
   /\ I4_acknowledged_entries_are_in_every_crash_image s.
 Proof.
-  intros c evs s Hfx Hlo Hrun Hs. pose proof (inv_reachable c evs s Hfx Hlo Hs Hrun) as HI.
-  destruct HI as [hi [HP HV]]. split; [|split].
+  intros c evs s Hfx Hrun Hs. pose proof (inv_reachable c evs s Hfx Hs Hrun) as HI.
+  pose proof HI as [hi [HP HV]]. split; [|split].
   - exact (p_file _ _ HP).
-  - split; [exact (p_first _ _ HP) | exact (p_new_in _ _ HP)].
-  - intros j Hj.
-    assert (Hst : step c s (EvCrash j 0) = Ok (reset_volatile (set_segs s (drop_tail (segs s) j)))).
-    { unfold step, image, norm_image. rewrite (pending_none c s hi HV). apply Nat.leb_le in Hj. rewrite Hj. reflexivity. }
-    pose proof (step_crash c s _ j 0%nat (ex_intro _ hi (conj HP HV)) Hst) as [hi' [HP' _]].
-    pose proof (pinv_last_entry _ _ HP') as Hle. pose proof (p_acked _ _ HP') as Hak. simpl in Hle, Hak. rewrite Hle. exact Hak.
+  - split; [exact (p_first _ _ HP) | apply pmarkers_sub; exact (p_new_in _ _ HP)].
+  - intros j extra ss Him. destruct (inv_recover c s j extra ss HI Him) as [_ [A _]]. exact A.
 Qed.
 
 (* ---------- a computable form of the schedule hypothesis (for examples) ---------- *)
 
-Fixpoint sched_okb (c : config) (s : state) (evs : list event) : bool :=
-  match evs with
-  | [] => true
-  | e :: t => (match e with EvPgBefore 4 => Nat.ltb (win_count (sns s)) (eff_keep_snap c) | _ => true end)
-              && match step c s e with Ok s' => sched_okb c s' t | Err _ => true end
-  end.
+Definition sched_okb := sched_holds_run.
 
 Lemma sched_okb_ok : forall c evs s, sched_okb c s evs = true -> sched_ok c s evs.
-Proof.
-  induction evs as [|e t IH]; intros s H; simpl in *; auto.
-  apply andb_true_iff in H. destruct H as [H1 H2]. split.
-  - intros ->. unfold window_ok. apply Nat.ltb_lt. exact H1.
-  - destruct (step c s e); auto.
-Qed.
+Proof. exact sched_holds_run_ok. Qed.
 
 (* ---------- the restart goes through, step by step ---------- *)
 
 (* from the state right after a process death of a state that satisfies the invariant, the events of startRaft are
    enabled one after the other up to the running node: snapshot chosen, engine restored from its checkpoint,
    WAL read back and replayed from the snapshot index; no step needs a manual repair *)
+(* the events of startRaft, and what they leave alone: the WAL is not written, the loops are idle when the node runs *)
+Definition is_restart_ev (e : event) : Prop :=
+  match e with
+  | EvRcChosen _ | EvRcNone | EvRsRemoved _ | EvRsCopied _ | EvRcRestored _ | EvRcReplay _ _ _ => True
+  | _ => False
+  end.
+Definition quiet_restart (evs : list event) (s s' : state) : Prop :=
+  Forall is_restart_ev evs /\ segs s' = segs s /\ unflushed s' = 0%nat /\ rdp s' = RdIdle.
+
 Lemma restart_succeeds_np : forall c s,
   Inv c s -> rc s = RcStart -> restore_pending s = false ->
   exists evs s', run c s evs = Ok s' /\ running s' = true
     /\ applied s' = newest (segs s) /\ engine s' = Some (range 0 (newest (segs s)))
-    /\ range (applied s') (rs_last s') = range (newest (segs s)) (rs_last s') /\ acked s <= rs_last s' <= proposed s.
+    /\ range (applied s') (rs_last s') = range (newest (segs s)) (rs_last s') /\ acked s <= rs_last s' <= proposed s
+    /\ quiet_restart evs s s'.
 Proof.
   intros c s [hi [HP HV]] R Hrp.
   unfold running in HV. rewrite R in HV. cbv iota in HV. unfold RInv in HV. rewrite R in HV.
-  destruct HV as [U [Hrd [Hap [Hsn [Hck [Hpw [Hps [Hq [Hws [Hrst [Hlat Heng]]]]]]]]]]].
-  pose proof (pinv_choose _ _ HP U) as Hch.
+  destruct HV as [U [Hrd [Hap [Hsn [Hck [Hpw [Hps [Hq [Hws [Hrst [Hun Hlat]]]]]]]]]]].
+  assert (J : forall i, In i (unvalidated (all_recs (segs s))) ->
+               i <= newest (segs s) \/ ~ In i (snapfiles s) \/ last_commit (all_recs (segs s)) < i).
+  { intros u Hu. destruct (Hun u Hu) as [A|[A|[_ A]]]; auto. }
+  pose proof (pinv_choose _ _ HP U J) as Hch.
+  pose proof (pinv_jumps _ _ HP) as HJ.
   pose proof (p_new_in _ _ HP) as Hin.
   pose proof (p_first _ _ HP) as Hf. unfold hd_first in Hf.
   pose proof (pinv_newest_le_hi _ _ HP) as Hle.
   set (m := newest (segs s)) in *.
-  destruct (read_all_chain _ _ _ m (p_local _ _ HP) (p_chain _ _ HP) ltac:(unfold lo_of; lia) Hf Hin) as [cm Ra].
+  destruct (read_all_chain _ _ _ m HJ (p_chain _ _ HP) ltac:(unfold lo_of; lia) Hf Hin) as [cm Ra].
   destruct (read_all_commit _ _ _ _ Ra) as [p [Hcov _]].
   assert (Hrs : (if N.of_nat (length (range m hi)) =? 0 then m else last_of (range m hi)) = hi).
   { rewrite range_length. destruct (N.of_nat (N.to_nat (hi - m)) =? 0) eqn:Qn.
@@ -220,7 +277,8 @@ Proof.
       unfold step at 1. cbv zeta. proj. rewrite Ra, Hcov, !N.eqb_refl. cbn [negb orb]. reflexivity.
     + unfold running. proj. rewrite Hrs.
       split; [reflexivity|]. split; [reflexivity|]. split; [reflexivity|]. split; [reflexivity|].
-      split; [exact (p_acked _ _ HP) | exact (p_prop _ _ HP)].
+      split; [split; [exact (p_acked _ _ HP) | exact (p_prop _ _ HP)]|].
+      unfold quiet_restart. proj. split; [repeat constructor|]. split; [reflexivity|]. split; [exact U | exact Hrd].
   - (* no snapshot yet: the whole log is replayed *)
     assert (Hm0 : m = 0) by lia. rewrite Hm0 in Ra, Hcov, Hrs.
     exists [EvRcNone; EvRcReplay (N.of_nat (length (range 0 hi))) (last_of (range 0 hi)) cm].
@@ -229,7 +287,8 @@ Proof.
       unfold step at 1. cbv zeta. proj. rewrite Ra, Hcov, !N.eqb_refl. cbn [negb orb]. reflexivity.
     + unfold running. proj. rewrite Hrs. rewrite Hm0.
       split; [reflexivity|]. split; [reflexivity|]. split; [reflexivity|]. split; [reflexivity|].
-      split; [exact (p_acked _ _ HP) | exact (p_prop _ _ HP)].
+      split; [split; [exact (p_acked _ _ HP) | exact (p_prop _ _ HP)]|].
+      unfold quiet_restart. proj. split; [repeat constructor|]. split; [reflexivity|]. split; [exact U | exact Hrd].
 Qed.
 
 (* the same when the process died inside restoreFromPath (rockredis fix d2f1422): the marker file the interrupted
@@ -238,7 +297,8 @@ Theorem restart_succeeds : forall c s,
   Inv c s -> rc s = RcStart ->
   exists evs s', run c s evs = Ok s' /\ running s' = true
     /\ applied s' = newest (segs s) /\ engine s' = Some (range 0 (newest (segs s)))
-    /\ range (applied s') (rs_last s') = range (newest (segs s)) (rs_last s') /\ acked s <= rs_last s' <= proposed s.
+    /\ range (applied s') (rs_last s') = range (newest (segs s)) (rs_last s') /\ acked s <= rs_last s' <= proposed s
+    /\ quiet_restart evs s s'.
 Proof.
   intros c s HI R. destruct (restore_pending s) eqn:Hrp; [|apply restart_succeeds_np; assumption].
   unfold restore_pending in Hrp.
@@ -259,5 +319,82 @@ Proof.
   - unfold restore_pending. proj. rewrite Rs. reflexivity.
   - exists (EvRsRemoved i :: EvRsCopied i :: evs), s'. split.
     + cbn [run]. rewrite S1, S2. exact Hrun.
-    + revert Hrest. proj. auto.
+    + revert Hrest. unfold quiet_restart. proj. intros [A1 [A2 [A3 [A4 [A5 [A6 A8]]]]]].
+      repeat (split; [assumption|]). split; [|exact A8]. constructor; [exact I|]. constructor; [exact I | exact A6].
+Qed.
+
+(* ---------- recovering twice in a row ---------- *)
+
+(* the purge loops of raftNode.purgeFile (their first pass runs when the node starts) *)
+Definition is_purge (e : event) : bool := match e with EvPgBefore _ | EvPgAfter _ => true | _ => false end.
+
+Lemma sched_ok_restart : forall c evs s, Forall is_restart_ev evs -> sched_ok c s evs.
+Proof.
+  induction evs as [|e t IH]; intros s H; simpl; auto. inversion H as [|? ? He Ht]; subst.
+  split; [intros ->; destruct He|]. split; [intros ->; destruct He|]. destruct (step c s e); auto.
+Qed.
+
+(* a step of a purge loop removes files the restart does not read: the WAL image keeps its last entry *)
+Lemma purge_step_keeps : forall c s e s', Inv c s -> is_purge e = true -> step c s e = Ok s' ->
+  last_entry (all_recs (segs s')) = last_entry (all_recs (segs s)) /\ unflushed s' = unflushed s /\ rdp s' = rdp s.
+Proof.
+  intros c s e s' HI Hp H. destruct e; try discriminate Hp.
+  - unfold step in H. step_inv H; proj; auto.
+  - pose proof HI as HI0. start_step H hi HP HV; norm_guards; proj; auto.
+    unfold running in *. destruct (rc s) eqn:R; try (not_running HV).
+    pose proof HV as HV0. destruct HV0 as [_ _ v_nrel _ _ _ _ _ _ _ _ _ _ _ _ v_pgwal _].
+    destruct v_pgwal as [v_pgwal Prs]. match goal with G : pg_wal s = true |- _ => specialize (v_pgwal G) end.
+    destruct v_nrel as [N1 N2].
+    assert (Hex : exists x y t, segs s = x :: y :: t).
+    { destruct (segs s) as [|x [|y t]]; simpl in N1; try lia. eauto. }
+    destruct Hex as [x [y [t Ess]]].
+    assert (Etl : tl (segs s) = y :: t) by (rewrite Ess; reflexivity). rewrite Etl.
+    assert (Hy : sfirst y <= newest (segs s)).
+    { pose proof (p_chain _ _ HP) as C. rewrite Ess in C, N1, N2.
+      destruct (nrel s) as [|n'] eqn:En; [lia|]. simpl in N1.
+      change (nth (S n') (x :: y :: t) (mkSeg 0 [])) with (nth n' (y :: t) (mkSeg 0 [])) in N2.
+      pose proof (chain_second_le x y t _ hi n' C ltac:(simpl; lia)). rewrite Ess. lia. }
+    destruct (pinv_purge_wal s (set_pg_wal (set_nrel (set_segs s (y :: t)) (Nat.pred (nrel s))) false) hi x y t HP Ess) as [HP' Hnw]; try reflexivity; auto.
+    pose proof (pinv_last_entry _ _ HP') as L1. pose proof (pinv_last_entry _ _ HP) as L2. proj. rewrite L1, L2. auto.
+Qed.
+
+Lemma purge_run_keeps : forall c pg s s2, fixed c -> Inv c s -> forallb is_purge pg = true -> sched_ok c s pg -> run c s pg = Ok s2 ->
+  Inv c s2 /\ last_entry (all_recs (segs s2)) = last_entry (all_recs (segs s)) /\ unflushed s2 = unflushed s /\ rdp s2 = rdp s.
+Proof.
+  intros c pg. induction pg as [|e t IH]; intros s s2 Hfx HI Hp HS H; simpl in H.
+  - injection H as <-. auto.
+  - simpl in Hp. apply andb_true_iff in Hp. destruct Hp as [Hp1 Hp2].
+    simpl in HS. destruct HS as [SW [SC HS]]. destruct (step c s e) as [s1|] eqn:E; [|discriminate].
+    destruct (purge_step_keeps c s e s1 HI Hp1 E) as [A1 [A2 A3]].
+    destruct (IH s1 s2 Hfx (inv_step c s e s1 Hfx HI SW SC E) Hp2 HS H) as [B0 [B1 [B2 B3]]].
+    split; [exact B0|]. split; [congruence|]. split; congruence.
+Qed.
+
+(* a node that died is restarted (any death, also one inside a restart or inside the installation of a snapshot),
+   the purge loops run (their first pass is at the start; any number of their steps), it dies again before it
+   has written anything, and is restarted again: the second restart serves what the first one served *)
+Theorem recover_idempotent : forall c s, fixed c -> Inv c s -> rc s = RcStart ->
+  exists evs s', run c s evs = Ok s' /\ running s' = true /\
+    forall pg s2, forallb is_purge pg = true -> sched_ok c s' pg -> run c s' pg = Ok s2 ->
+    forall j extra ss2, image s2 j extra = Some ss2 ->
+      recover ss2 (snapfiles s2) (ckpts s2) = recover (segs s) (snapfiles s) (ckpts s)
+      /\ recover (segs s) (snapfiles s) (ckpts s) = Ok (range 0 (last_entry (all_recs (segs s)))).
+Proof.
+  intros c s Hfx HI R.
+  destruct (restart_succeeds c s HI R) as [evs [s' [Hrun [Hrn [_ [_ [_ [_ [Hev [Hsg [Hu Hrd]]]]]]]]]]].
+  exists evs, s'. split; [exact Hrun|]. split; [exact Hrn|].
+  intros pg s2 Hpg HS Hrun2 j extra ss2 Him.
+  pose proof (inv_run c evs s s' Hfx HI (sched_ok_restart c evs s Hev) Hrun) as HI'.
+  destruct (purge_run_keeps c pg s' s2 Hfx HI' Hpg HS Hrun2) as [HI2 [L [U2 Rd2]]].
+  (* the first restart *)
+  assert (Him1 : image s 0 0 = Some (segs s)).
+  { destruct HI as [hi [HP HV]]. unfold running in HV. rewrite R in HV. destruct HV as [U [Hr _]].
+    unfold image, norm_image, pending. rewrite Hr, U. simpl. rewrite drop_tail_0. reflexivity. }
+  destruct (inv_recover c s 0%nat 0%nat (segs s) HI Him1) as [E1 _].
+  (* the second one *)
+  assert (Hss : ss2 = segs s2).
+  { unfold image, norm_image, pending in Him. rewrite Rd2, Hrd, U2, Hu in Him. destruct extra; [|discriminate].
+    destruct j; [|discriminate]. simpl in Him. rewrite drop_tail_0 in Him. injection Him as <-. reflexivity. }
+  destruct (inv_recover c s2 j extra ss2 HI2 Him) as [E2 _].
+  split; [|exact E1]. rewrite E2, E1, Hss, L, Hsg. reflexivity.
 Qed.
